@@ -10,6 +10,9 @@
 //	           1970-2100 (thorough), in every zone
 //	duration   rapid: duration / durationformat against an own h/m/s reader
 //	errors     rapid: unparseable input yields the error marker
+//	concurrent rapid: one compiled expression evaluated by 2-8 goroutines on
+//	           their own lines at once; every value equals the one the line
+//	           gives evaluated alone (concurrent_test.go)
 package c18
 
 import (
